@@ -314,8 +314,16 @@ def check_prepare(P, R):
         # the count is the number of distinct labels
         cnt_ok = False
         for st, t, v, k in stores(f):
-            if isinstance(t, ast.Name) and t.id == alloc_rng and isinstance(v, ast.Call) and src(v.func) == "len" and v.args and isinstance(v.args[0], ast.Call) and src(v.args[0].func).split(".")[-1] in ("set", "unique", "unique_labels"):
-                cnt_ok = True
+            if isinstance(t, ast.Name) and t.id == alloc_rng and isinstance(v, ast.Call) and src(v.func) == "len" and v.args:
+                a0 = v.args[0]
+                if isinstance(a0, ast.Name):
+                    # len(t) with t = set(y) assigned just before
+                    du_ = get_defuse(f, P)
+                    rd_ = du_.reaching(du_.stmt_of(st), a0.id)
+                    if len(rd_) == 1 and rd_[0].value is not None and rd_[0].how == "assign":
+                        a0 = rd_[0].value
+                if isinstance(a0, ast.Call) and src(a0.func).split(".")[-1] in ("set", "unique", "unique_labels"):
+                    cnt_ok = True
         R.check(cnt_ok, "IDX.route-alloc", key, f"{alloc_rng} = number of distinct labels", "", "the number of per-class lists is not the number of distinct labels")
     ok_y = False
     for st, t, v, k in stores(f):
@@ -337,6 +345,7 @@ def check_reduce_iadd(P, R):
     f = P.func("factor_analysis:reduce_iadd")
     R.analysed(f)
     loopvars = [n.target.id for n in walk_no_nested(f.node) if isinstance(n, ast.For) and isinstance(n.target, ast.Name) and isinstance(n.iter, ast.Name) and n.iter.id == (f.vararg or "")]
+    loopvars += [g.target.id for n in walk_no_nested(f.node) if isinstance(n, (ast.ListComp, ast.GeneratorExp)) for g in n.generators if isinstance(g.target, ast.Name) and isinstance(g.iter, ast.Name) and g.iter.id == (f.vararg or "") and not g.ifs]
     if not loopvars:
         R.undecided("COVER.reduce_iadd", f.key, "each list of *args is folded", "no loop over the argument lists found")
         return
